@@ -702,7 +702,8 @@ MULTI += [
 # Behaviour-preserving edits the checks are KNOWN to alarm on (documented limitation, DESIGN.md section 8): a step of a function that a
 # rule decides intraprocedurally is extracted into a helper function.  The rule no longer sees the step in the body it is phrased over and
 # fails closed.  Kept here so the limitation is measured, not hidden; run_benign reports them as ALARM-AS-DOCUMENTED.
-LIMITS = [
+# formerly a documented limit (round 7); the flush-and-sync helper is summarised by every C10 rule that needs it since round 8
+MULTI += [
  ("B.file_sync_helper", ["C10", "C07", "C11"], "emitter/file/src/lib.rs", [
    ("""        file.file
             .flush()
@@ -713,4 +714,14 @@ LIMITS = [
 """, """        flush_and_sync(&mut file).map_err(|e| emit_batcher::BatchError::no_retry(e))?;
 """),
    ("fn is_file_in_set(file_name: &str, file_prefix: &str, file_ext: &str) -> bool {", "fn flush_and_sync(file: &mut ActiveFile) -> io::Result<()> {\n    file.file.flush()?;\n    file.file.sync_all()\n}\n\nfn is_file_in_set(file_name: &str, file_prefix: &str, file_ext: &str) -> bool {")]),
+]
+
+LIMITS = [
+ ("B.write_counted_helper", ["C10", "C11", "C07"], "emitter/file/src/lib.rs", [
+   ("""            self.file_size_bytes += separator.len();
+            self.file.write_all(separator)?;""", """            self.write_counted(separator)?;"""),
+   ("""        self.file_size_bytes += event_buf.len();
+        self.file.write_all(event_buf)?;""", """        self.write_counted(event_buf)?;"""),
+   ("    fn write_event(&mut self, event_buf: &[u8], separator: &'static [u8]) -> Result<(), io::Error> {",
+    "    fn write_counted(&mut self, buf: &[u8]) -> Result<(), io::Error> {\n        self.file_size_bytes += buf.len();\n        self.file.write_all(buf)\n    }\n\n    fn write_event(&mut self, event_buf: &[u8], separator: &'static [u8]) -> Result<(), io::Error> {")]),
 ]
